@@ -25,6 +25,7 @@ import (
 	"fmt"
 	"strconv"
 	"strings"
+	"unicode/utf8"
 
 	errorsmod "cosmossdk.io/errors"
 	channeltypes "github.com/cosmos/ibc-go/v8/modules/core/04-channel/types"
@@ -162,9 +163,10 @@ func ValidateCounterpartyID(id string, protocol ProtocolID) error {
 	}
 
 	// NOTE: the counterparty ID is used as a non terminal element of composite
-	// store keys, where the null character is the string delimiter.
-	if strings.Contains(id, "\x00") {
-		return errors.New("counterparty ID cannot contain the null character")
+	// store keys, where the null character is the string delimiter and only the
+	// first byte of a multi-byte character is encoded.
+	if err := ValidateKeyString(id); err != nil {
+		return errorsmod.Wrap(err, "counterparty ID")
 	}
 
 	var valid bool
@@ -195,6 +197,24 @@ func ValidateCounterpartyID(id string, protocol ProtocolID) error {
 // domain of the protocols identifying the counterparty with a number. Non canonical
 // representations of the same number (signs, leading zeros) or numbers out of range are not
 // valid, since they would never match the counterparty ID of a forwarding.
+// ValidateKeyString returns an error if the string cannot be used as a non terminal element
+// of a composite store key. The key encoding of non terminal strings uses the null character
+// as delimiter and writes only the first byte of every multi-byte UTF-8 character, so a string
+// containing the null character or non ASCII characters is not stored faithfully: the key
+// cannot be decoded back into the values it was built from.
+func ValidateKeyString(s string) error {
+	for i := 0; i < len(s); i++ {
+		if s[i] == 0 {
+			return errors.New("cannot contain the null character")
+		}
+		if s[i] >= utf8.RuneSelf {
+			return errors.New("cannot contain non ASCII characters")
+		}
+	}
+
+	return nil
+}
+
 func isInteger(s string) bool {
 	v, err := strconv.ParseUint(s, 10, 32)
 
